@@ -10,6 +10,7 @@
 #include <condition_variable>
 #include <exception>
 #include <list>
+#include <memory>
 #include <mutex>
 #include <thread>
 #include <vector>
@@ -150,19 +151,67 @@ void enqueue(std::function<void()> f)
   t.detach();
 }
 
+struct Spawned
+{
+  std::function<void()> f;
+  bool taken = false;  // guarded by the group's mutex: the task is executed by whoever takes it first
+};
 struct Group
 {
   std::mutex m;
   std::vector<std::thread> running;
-  std::vector<std::function<void()>> deferred;
+  std::vector<std::shared_ptr<Spawned>> deferred;
 };
 Group *group_create() { return new Group(); }
+static void take_and_run(Group *g, const std::shared_ptr<Spawned> &s)
+{
+  {
+    std::lock_guard<std::mutex> lock(g->m);
+    if (s->taken)
+      return;
+    s->taken = true;
+  }
+  s->f();
+}
 void group_run(Group *g, std::function<void()> f)
 {
-  // a spawned task may be picked up by a worker at once, or only executed by the thread that waits
-  if (sim_choice(3) == 2) {
+  // Optional parallelism: a spawned task is executed by a worker thread that steals it (workers are woken when something is
+  // spawned) or by the thread that waits for the group, whoever gets to it first. When the parallelism limit leaves no worker
+  // besides the caller, nobody but a waiting thread ever executes it.
+  bool no_worker;
+  {
+    std::lock_guard<std::mutex> lock(g_mtx);
+    no_worker = limit_locked() <= 1;
+  }
+  if (no_worker) {
+    auto s = std::make_shared<Spawned>();
+    s->f = std::move(f);
     std::lock_guard<std::mutex> lock(g->m);
-    g->deferred.push_back(std::move(f));
+    g->deferred.push_back(s);
+  } else if (sim_choice(3) == 2) {
+    auto s = std::make_shared<Spawned>();
+    s->f = std::move(f);
+    std::thread t([g, s]() { take_and_run(g, s); });
+    std::lock_guard<std::mutex> lock(g->m);
+    g->deferred.push_back(s);
+    g->running.push_back(std::move(t));
+  } else {
+    std::thread t([f]() { f(); });
+    std::lock_guard<std::mutex> lock(g->m);
+    g->running.push_back(std::move(t));
+  }
+}
+void group_enqueue(Group *g, std::function<void()> f)
+{
+  // enqueued, not spawned: a worker executes it (one is created if the limit leaves none); a thread waiting for the group may get
+  // to it first
+  if (sim_choice(3) == 2) {
+    auto s = std::make_shared<Spawned>();
+    s->f = std::move(f);
+    std::thread t([g, s]() { take_and_run(g, s); });
+    std::lock_guard<std::mutex> lock(g->m);
+    g->deferred.push_back(s);
+    g->running.push_back(std::move(t));
   } else {
     std::thread t([f]() { f(); });
     std::lock_guard<std::mutex> lock(g->m);
@@ -172,14 +221,14 @@ void group_run(Group *g, std::function<void()> f)
 void group_wait(Group *g)
 {
   std::vector<std::thread> r;
-  std::vector<std::function<void()>> d;
+  std::vector<std::shared_ptr<Spawned>> d;
   {
     std::lock_guard<std::mutex> lock(g->m);
     r.swap(g->running);
     d.swap(g->deferred);
   }
-  for (auto &f : d)
-    f();
+  for (auto &s : d)
+    take_and_run(g, s);
   for (auto &t : r)
     t.join();
 }
